@@ -1,7 +1,8 @@
 # float slice: numeric tower programs, floats compared exactly (canonical F<m>p<e> form on both sides)
 import sys, io, random, subprocess, collections, re, math
 import os; sys.path.insert(0, os.environ.get('VERIF_REPO', '/repo')); sys.path.insert(0, '/tmp/genprobe')
-from pbhhg_py import parse, interpret, abstract_syntax as AS, main as M
+from pbhhg_py import abstract_syntax as AS
+from pbhhg_py import interpret, main as M, parse
 import gen as Gm
 def canon_float(x):
     if x != x: return "Fnan"
